@@ -26,7 +26,7 @@ MANIFEST = {
               "sign/interval facts of the distance expression; the fixed table is compared exhaustively with the xterm formula."),
     "note": ("Trusted: rustc front end/const eval; the argmin-scan lemma (a scan with strict `<` from the first candidate returns "
              "the lowest index of a minimal element); the crate's `distance` is taken as the definition of the red-mean metric."),
-    "technique": "static analysis: dispatch-table extraction with thin-wrapper unfolding, const table vs formula, abstract evaluation of xterm_to_ansi / rgb_from_index over all 256 indices and of Palette::get over the 16 colours, case-wise evaluation of xterm_to_rgb, loop-shape (argmin scan) rule, polynomial normal form and interval analysis of the distance expression",
+    "technique": "static analysis: deep abstract evaluation of color_to_rgb/xterm/ansi on every colour of every variant against the named conversion (symbolic palette, scans uninterpreted), const table vs formula, abstract evaluation of xterm_to_ansi / rgb_from_index over all 256 indices and of Palette::get over the 16 colours, case-wise evaluation of xterm_to_rgb, loop-shape (argmin scan) rule, polynomial normal form and interval analysis of the distance expression",
 }
 
 L = "anstyle_lossy::"
